@@ -33,7 +33,11 @@ Base == [arr |-> [arr |-> <<<<I(1), I(2), I(3)>>, <<I(4), I(5), I(6)>>>>, dims |
          ni |-> I(1), ns |-> S("y"),
          inner |-> [rec |-> [q |-> I(11), w |-> I(1)]],
          mp |-> [map |-> <<<<S("a"), I(1)>>, <<S("b"), I(2)>>>>],
-         f |-> H(3), i |-> I(7), k |-> I(40), two |-> H(4)]
+         f |-> H(3), i |-> I(7), k |-> I(40), two |-> H(4),
+         \* fixed-size and dynamic containers
+         fa |-> [arr |-> <<<<I(1), I(2), I(3)>>, <<I(4), I(5), I(6)>>>>, dims |-> <<"x", "y">>],
+         fv |-> Vec(<<I(7), I(8), I(9)>>),
+         da |-> [arr |-> <<<<I(1), I(2)>>, <<I(3), I(4)>>>>, dims |-> <<"d0", "d1">>]]
 
 \* ---- expression trees
 Fld(n) == [k |-> "fld", n |-> n]
@@ -116,6 +120,18 @@ Plain ==
   \cup { Cast(Fld("two"), p) : p \in {"int", "long", "double"} }
   \cup { Bin("+", Cast(Fld("i"), "long"), Fld("k")), Bin("*", Cast(Fld("i"), "double"), Fld("f")), Cast(Bin("+", Fld("i"), Lit(1)), "double"),
          Bin("+", Cast(Size(VecF), "int"), Fld("i")), Cast(Idx(VecF, <<Arg("", Lit(0))>>), "double") }
+Fixed ==
+  {Size(Fld("fa")), Size(Fld("fv")), Size(Fld("da")), DimCount(Fld("fa")), DimCount(Fld("da"))}
+  \cup { SizeDim(Fld("fa"), a) : a \in {Lit(0), Lit(1), Str("x"), Str("y"), Fld("ni")} }
+  \cup { DimIndex(Fld("fa"), a) : a \in {Str("x"), Str("y")} }
+  \cup { SizeDim(Fld("da"), a) : a \in {Lit(0), Lit(1)} }
+  \cup { Idx(Fld("fv"), <<Arg("", a)>>) : a \in {Lit(0), Lit(2), Fld("ni")} }
+  \cup { Idx(Fld("fa"), <<Arg("", a), Arg("", b)>>) : a \in {Lit(0), Lit(1)}, b \in {Lit(0), Lit(2), Fld("ni")} }
+  \cup { Idx(Fld("fa"), <<Arg("x", a), Arg("y", b)>>) : a \in {Lit(1)}, b \in {Lit(0), Lit(2)} }
+  \cup { Idx(Fld("da"), <<Arg("", a), Arg("", b)>>) : a \in {Lit(0), Lit(1)}, b \in {Lit(0), Lit(1)} }
+  \cup { Bin("+", Idx(Fld("fv"), <<Arg("", Lit(1))>>), Idx(Fld("fa"), <<Arg("", Lit(1)), Arg("", Lit(1))>>)),
+         Bin("*", Size(Fld("fv")), Size(Fld("fa"))) }
+
 Switches ==
   { Sw(Fld("opt"), <<Case("int", "", Lit(1)), Case("_", "", Lit(0))>>),
     Sw(Fld("opt"), <<Case("int", "x", Bin("+", Fld("x"), Lit(1))), Case("null", "", Lit(0))>>),
@@ -131,7 +147,7 @@ Switches ==
     Sw(Fld("i"), <<Case("int", "", Lit(5))>>),
     Sw(Fld("k"), <<Case("_", "", Bin("+", Fld("i"), Lit(1)))>>) }
 
-Exprs == Plain \cup Switches
+Exprs == Plain \cup Fixed \cup Switches
 EnvOf(val) == [n \in DOMAIN Base \cup DOMAIN val |-> IF n \in DOMAIN val THEN val[n] ELSE Base[n]]
 ValSeq == SetToSeq(Valuations)
 Cases == { [e |-> e, values |-> [j \in 1..Len(ValSeq) |-> Eval(e, EnvOf(ValSeq[j]))]] : e \in Exprs }
